@@ -217,7 +217,7 @@ def run(chk):
             for N in (1, 3):
                 for tr, _w in leaves({"keys": KS[1], "wts": wts1, "sizes": [3], "N": N, "scale": "norm", "pre": pre}, max_leaves=40):
                     traces.append(tr); chk.rng_leaves += 1
-    for dt in ("int64", "uint8", "uint16", "int32"):
+    for dt in ("int64", "int32", "int16"):      # signed only: unsigned numpy scalars wrap on negation, which would make legitimate arithmetic (-t % m) look wrong
         for sizes in ([3], [2], [5]):
             for N in (1, 2, 3):
                 for tr, _w in leaves({"keys": KS[1], "wts": [1, 1, 1], "sizes": sizes, "N": N, "scale": "int", "np_keys": dt}, max_leaves=30):
@@ -244,6 +244,12 @@ def run(chk):
     for t in traces:
         t.pop("trail", None)
     patched = [t for t in traces if t["raw_known"] and t["raw"] != t["out"] and not t["raised"]]
+    if not any(t["raw_known"] for t in traces):
+        # the sampler no longer goes through the public handshaking_lemma of the loader object: the raw draws are not
+        # observable; a stub was certainly added when a returned tuple is not one of the distribution's keys
+        patched = [t for t in traces if not t["raised"] and any(o not in t["keys"] for o in t["out"])]
+        chk.not_decided.append("raw draws not observable (sample_jds_from_jdd does not call handshaking_lemma on the object): "
+                               "'support' and 'never removes' are judged through the explanation search for N <= 4 only")
     if not patched:
         raise Exception("vacuous batch: no recorded execution needed a patch")
     chk.nontrivial = len({str(t["raw"]) + str(t["out"]) + str(t["sizes"]) for t in patched})
